@@ -5,6 +5,6 @@ LEAN_MODULES = _auto.lean_modules("C01")
 VARIANTS = ['default']
 RULE = 'every length 0..=4*block+1 exhaustively for each fixed variant, BLAKE2 outlen x keylen grids x boundary lengths, random long messages; non-trivial = message or key not all zero/empty; distinct = distinct case lines'
 TRUSTED = ["hand-written Lean models (lean/CxVerif/Impl, Spec) tied to the code by the correspondence run and by tables re-extracted from /repo/src"]
-ASSUMPTIONS = []
+ASSUMPTIONS = ["messages shorter than the standards' own limits: < 2^61 bytes (SHA-1, SHA-224/256, RIPEMD-160), < 2^125 bytes (SHA-384/512/t); SHA-3/Keccak/BLAKE2 < 2^64 bytes (usize) — lengths beyond 64 KiB are exercised only through hook-preset counters (hlen ops) and self-consistency (long.* ops), not byte-for-byte against the Spec", 'the processed-bytes counters are modelled as wrapping (release semantics); the overflow-checked behaviour at the counter limit belongs to C20']
 gen = _auto.make_gen("C01")
 nontrivial = _auto.default_nontrivial
